@@ -18,7 +18,12 @@ use tokio::io::{AsyncRead, AsyncWrite, ReadBuf};
 pub enum ReadEnd {
     Eof,
     Reset,
+    /// the read fails with another I/O error kind (index into READ_ERROR_KINDS)
+    Error(u8),
 }
+
+/// connection failures a transport can report besides end-of-file and reset
+pub const READ_ERROR_KINDS: &[io::ErrorKind] = &[io::ErrorKind::TimedOut, io::ErrorKind::WouldBlock, io::ErrorKind::InvalidData, io::ErrorKind::ConnectionAborted, io::ErrorKind::Other, io::ErrorKind::UnexpectedEof, io::ErrorKind::BrokenPipe];
 
 #[derive(Debug, Default)]
 pub struct WireInner {
@@ -30,6 +35,8 @@ pub struct WireInner {
     write_i: usize,
     /// writes fail once this many bytes have been accepted
     pub write_fail_at: Option<usize>,
+    /// once this many bytes have been accepted every write reports Ok(0) (a transport that accepts nothing more)
+    pub write_zero_at: Option<usize>,
     pub write_fail_kind: Option<io::ErrorKind>,
     pub write_calls: usize,
     /// back-pressure: poll_write returns Pending until unblocked
@@ -131,6 +138,10 @@ impl AsyncRead for ScriptedIo {
                 w.read_end_seen = true;
                 Poll::Ready(Err(io::Error::new(io::ErrorKind::ConnectionReset, "scripted connection reset")))
             }
+            Some(ReadEnd::Error(k)) => {
+                w.read_end_seen = true;
+                Poll::Ready(Err(io::Error::new(READ_ERROR_KINDS[k as usize % READ_ERROR_KINDS.len()], "scripted read error")))
+            }
             None => {
                 w.reader_waker = Some(cx.waker().clone());
                 w.reader_idle = true;
@@ -153,6 +164,13 @@ impl AsyncWrite for ScriptedIo {
             return Poll::Ready(Err(io::Error::new(io::ErrorKind::BrokenPipe, "write after shutdown")));
         }
         let mut n = buf.len();
+        if let Some(at) = w.write_zero_at {
+            if w.c2s.len() >= at && !buf.is_empty() {
+                w.write_errors += 1;
+                return Poll::Ready(Ok(0));
+            }
+            n = n.min(at - w.c2s.len());
+        }
         if let Some(at) = w.write_fail_at {
             if w.c2s.len() >= at {
                 w.write_errors += 1;
